@@ -511,7 +511,20 @@ var tlayouts = []tlayout{
 	{"epoch", false, true, time.Second, false},
 }
 
-var zones = []string{"", "", "+8", "-5", "+5:30", "-3:30", "+0", "Asia/Shanghai", "America/New_York", "UTC", "Europe/London", "+99", "Nowhere/City", "-0"}
+var zones = append([]string{"", "", "+8", "-5", "+5:30", "-3:30", "+0", "Asia/Shanghai", "America/New_York", "UTC", "Europe/London", "+99", "Nowhere/City", "-0",
+	"", "+8", "-5", "Asia/Shanghai", "America/New_York", "UTC", "Europe/London", "+5:30"}, sgen.ZoneArgs...)
+
+func zoneLabel(z string) string {
+	if len(z) > 14 {
+		return "zone/(long)"
+	}
+	for _, r := range z {
+		if r < ' ' || r > '~' {
+			return "zone/(non-ascii)"
+		}
+	}
+	return "zone/" + z
+}
 
 var thisYear = time.Now().Year()
 
@@ -606,7 +619,7 @@ func TestDefaultTime(t *testing.T) {
 		}
 		c.Scripts[c.Root] = gen.FixAll(prog)
 		nt := tl.house || (zone != "" && zone != "UTC" && zone != "+0")
-		v := judge(t, "default_time", c, fmt.Sprintf("deft/%s/%s/%s/%s", tl.layout, zone, text, sit), nt, "default_time/"+sit, "zone/"+zone, map[bool]string{true: "layout/house", false: "layout/general"}[tl.house])
+		v := judge(t, "default_time", c, fmt.Sprintf("deft/%s/%s/%s/%s", tl.layout, zone, text, sit), nt, "default_time/"+sit, zoneLabel(zone), map[bool]string{true: "layout/house", false: "layout/general"}[tl.house])
 		if v != nil && nt && v.Model.Pt.Time != 0 {
 			evid.Sample(map[string]any{"script": c.Texts[c.Root], "subject": text, "reference_time": time.Unix(0, v.Model.Pt.Time).UTC().String()})
 		}
